@@ -43,7 +43,9 @@ class XLoop(vloop.VLoop):
         base = super()._label(h)
         if not is_task_step(h):
             args = getattr(h, '_args', None) or ()
-            if args and isinstance(args[0], asyncio.Task):
+            # asyncio.wait registers its (commuting) _on_completion callbacks in set-iteration order, which depends on
+            # object addresses: leave those anonymous so that labels and state hashes stay deterministic
+            if args and isinstance(args[0], asyncio.Task) and '_on_completion' not in base:
                 base += f'({args[0].get_name()})'
         return base
 
@@ -157,3 +159,24 @@ def affected_tasks(h, depth=4):
         if frontier:
             return None
     return tasks
+
+
+def pc(task):
+    """Program counter of a task: (function name, bytecode offset) of every frame on its await chain.
+    Part of harness state hashes so that two executions are merged only if every task is at the same await."""
+    if task.done():
+        return 'done'
+    out = []
+    c = task.get_coro()
+    for _ in range(50):
+        if c is None:
+            break
+        fr = getattr(c, 'cr_frame', None)
+        if fr is None:
+            fr = getattr(c, 'gi_frame', None)
+        if fr is None:
+            out.append(type(c).__name__)
+            break
+        out.append((fr.f_code.co_name, fr.f_lasti))
+        c = c.cr_await if hasattr(c, 'cr_await') else getattr(c, 'gi_yieldfrom', None)
+    return tuple(out)
